@@ -41,8 +41,12 @@ m = {
          "serves_properties": sorted(p for p in CLAIMS if "K" in CLAIMS[p]["engine"])},
         {"name": "S", "path": "/verif/symex + /verif/driver", "kind_free_text": "symbolic executor (Python + z3) for the bytecode the real compiler emits (prelude, core/map, templates); inputs are z3 terms; replay on the real VM through the driver",
          "serves_properties": sorted(p for p in CLAIMS if "S" in CLAIMS[p]["engine"])},
-        {"name": "M", "path": "/verif/mir", "kind_free_text": "nightly MIR dump of utils::arena translated to SMT-LIB2 bit-vectors, decided by z3 and cvc5",
-         "serves_properties": sorted(p for p in CLAIMS if "M" in CLAIMS[p]["engine"])},
+        {"name": "R", "path": "/verif/symex/refsem.py + /verif/symex/tv.py", "kind_free_text": "symbolic reference interpreter of the source AST; translation validation against engine S on every jointly satisfiable path pair (z3)",
+         "serves_properties": sorted(p for p in CLAIMS if "R" in CLAIMS[p]["engine"])},
+        {"name": "M", "path": "/verif/mir/arena_check.py", "kind_free_text": "nightly MIR dump of utils::arena::Arena::alloc translated to 64-bit bit-vector obligations, decided by z3, cross-checked by cvc5, Miri replay",
+         "serves_properties": sorted(p for p in CLAIMS if CLAIMS[p]["engine"] == "M")},
+        {"name": "M2", "path": "/verif/mir/mirvm.py + sched.py + srcloc.py + dropcheck.py", "kind_free_text": "symbolic interpreter for rustc MIR text (re-dumped from /repo on every run) with library summaries and z3: scheduler (vm::Runtime), Drop implementations, source location tables; native replay of counterexamples",
+         "serves_properties": sorted(p for p in CLAIMS if "M2" in CLAIMS[p]["engine"])},
     ],
     "checks": checks,
     "not_applicable": [{"property_id": p, "reason": r} for p, r in sorted(NOT_APPLICABLE.items()) if p not in CLAIMS],
